@@ -352,18 +352,22 @@ def main():
             hist["batch_not_dividing"] += 1
         if "exception" not in im and nontrivial(c, im):
             distinct.add(json.dumps({k: c[k] for k in c if k != "id"}, sort_keys=True))
-        if probs:
-            sig = probs[0][0]
-            oracle_says_bad = any(s.startswith("oracle-") for s, _ in probs)
-            chk.violation(
-                sig if oracle_says_bad else "model-correspondence-" + sig,
-                "; ".join(m for _, m in probs[:3]),
-                {"case": c, "problems": probs[:10], "impl_adv": im.get("adv"), "impl_perms": im.get("perms"),
-                 "correspondence": "harness/c05.py vs Model.Gae.run_col / Model.Minibatch.minibatches"},
-                found_input=oracle_says_bad,
-            )
-            if len(chk.violations) >= 1:
-                break
+    # report: a case on which the statement-level oracle fails (a concrete failing input, smallest rollout first) before a case
+    # on which only model and implementation disagree
+    bad = [(c, im, probs) for c, im, probs in zip(cases, impls, results) if probs]
+    with_oracle = sorted([x for x in bad if any(s.startswith("oracle-") for s, _ in x[2])], key=lambda x: x[0]["T"] * x[0]["n"])
+    for c, im, probs in (with_oracle or bad)[:1]:
+        oracle_probs = [(s, m) for s, m in probs if s.startswith("oracle-")]
+        oracle_says_bad = bool(oracle_probs)
+        ordered = oracle_probs + [(s, m) for s, m in probs if not s.startswith("oracle-")]
+        sig = ordered[0][0]
+        chk.violation(
+            sig if oracle_says_bad else "model-correspondence-" + sig,
+            "; ".join(m for _, m in ordered[:3]),
+            {"case": c, "problems": ordered[:10], "impl_adv": im.get("adv"), "impl_perms": im.get("perms"),
+             "correspondence": "harness/c05.py vs Model.Gae.run_col / Model.Minibatch.minibatches"},
+            found_input=oracle_says_bad,
+        )
     chk.coverage["evaluations"] = len(cases)
     chk.coverage["traces_validated_against_impl"] = len(cases)
     chk.coverage["distinct_nontrivial"] = len(distinct)
